@@ -136,7 +136,7 @@ def radial_case(draw):
         for x in uphill.radial_turning_points(s[d], rho2, _r_min(c)):
             e = uphill.radial_uphill(u, s[d], rho2, x, _r_min(c))
             if e > 0.0 and not math.isinf(e):
-                mode, budget = "boundary", gen.step(e, draw(st.integers(-1, 1)))
+                mode, budget = ("boundary" if e >= 1e-6 * u_scale else "tiny"), gen.step(e, draw(st.integers(-1, 1)))
                 break
     c["mode"], c["budget"] = mode, budget
     return c
@@ -279,7 +279,9 @@ def periodic_case(draw):
         if tp is not None and tp > 0:
             e = uphill.periodic_coulomb_uphill(kc, s[d], rho2, L, tp)
             if e > 0:
-                mode, budget = "boundary", gen.step(e, draw(st.integers(-1, 1)))
+                # (a branch boundary far below the potential itself - a climb of 1e-13 |U| - is outside the
+                # well-conditioned range like any other such budget: totality and sign only)
+                mode, budget = ("boundary" if e >= 1e-6 * u_scale else "tiny"), gen.step(e, draw(st.integers(-1, 1)))
     speed = draw(st.one_of(st.just(1.0), gen.log_uniform(1e-3, 1e3)))
     return {"L": L, "k": k, "c1": c1, "c2": c2, "direction": d, "separation": s, "branch": branch, "mode": mode,
             "budget": budget, "speed": speed}
